@@ -386,6 +386,13 @@ func sweepTargets(p *Prog, db *ContractDB, prop string) []*ssa.Function {
 				}
 				k, _, ok := x.staticCalleeKey(ci.Common())
 				if !ok {
+					if u, isLoad := ci.Common().Value.(*ssa.UnOp); isLoad && !ci.Common().IsInvoke() {
+						if a, isAlloc := u.X.(*ssa.Alloc); isAlloc && a.Comment != "" {
+							k, ok = "var:"+a.Comment, true
+						}
+					}
+				}
+				if !ok {
 					continue
 				}
 				for _, cc := range keys[k] {
